@@ -334,14 +334,29 @@ def observe(gfa, pool, universe=()):
     obs["nd"], obs["nc"], obs["ni"], obs["nde"] = (t["n_dovetails"], t["n_containments"],
                                                    t["n_internals"], t["n_dead_ends"])
     obs["dig"] = digest(obs, pool)
+    obs["digr"] = digest(obs, pool, real_only=True)
     return obs
 
 
-def digest(obs, pool):
+def digest(obs, pool, real_only=False):
     """Order-insensitive digest of an observation (line identity = written text,
-    independent of pool numbering, so digests of different traces are comparable)."""
+    independent of pool numbering, so digests of different traces are comparable).
+    real_only: the part of the observation that does not involve placeholders (used for the
+    stutter clause while orphan placeholders exist, which are outside the claim, DESIGN 3.1)."""
     import hashlib, json
     ls = obs["lines"]
+    if real_only:
+        def rr(p):
+            r = pool.items[p - 1]
+            return json.dumps([r["rt"], r["name"], r["refs"], r["f"], r["tags"]], sort_keys=True)
+        isreal = lambda i: i >= 1 and not ls[i - 1]["virt"]
+        canon = sorted(
+            [rr(l["p"]), l["own"],
+             sorted([k, rr(ls[i - 1]["p"])] for k, i in l["fwd"] if isreal(i)),
+             sorted([k, sorted(rr(ls[i - 1]["p"]) for i in ids if isreal(i))] for k, ids in l["br"])]
+            for l in ls if not l["virt"])
+        blob = json.dumps([obs["version"], obs["qlen"], obs["hdr"], canon], sort_keys=True)
+        return hashlib.md5(blob.encode()).hexdigest()[:12]
     def rid(p, virt=0):
         r = pool.items[p - 1]
         if virt and r["rt"] in ("S", "?"):
